@@ -117,6 +117,9 @@ type mLease struct {
 	key        string
 	hosts      []string
 	swapHosts  bool
+	// blockedSecond: every manifest of the lease also names a hostname on the provider's block list, so
+	// its hostname reservation is refused and no deploy ever happens (treated like a failed deploy)
+	blockedSecond bool
 	reserved   bool // harness holds a reservation for its order
 	lastSent   int  // version of the last manifest announced (0 = none)
 	closedAt   int  // scheduler step at which EventLeaseClosed was delivered (0 = not closed)
@@ -153,11 +156,20 @@ func (x *c14) manifestFor(l *mLease, version int) (*manifest.Manifest, *manifest
 // hostsFor: with swapHosts every second manifest version asks for another hostname than the first one
 // (an update that drops one hostname and claims another).
 func (l *mLease) hostsFor(version int) []string {
+	var hs []string
 	if len(l.hosts) == 0 || !l.swapHosts || version%2 == 1 {
-		return l.hosts
+		hs = l.hosts
+	} else {
+		hs = []string{"alt-" + l.hosts[0]}
 	}
-	return []string{"alt-" + l.hosts[0]}
+	if l.blockedSecond && len(hs) > 0 {
+		// a free hostname first, then one the provider refuses: the reservation as a whole is refused
+		hs = append(append([]string{}, hs...), blockedHost)
+	}
+	return hs
 }
+
+const blockedHost = "blocked.example.com"
 
 // everHosts: every hostname some manifest version of the lease asked for.
 func (l *mLease) everHosts() []string {
@@ -215,6 +227,7 @@ func runC14(r *core.Run) *core.Violation {
 	x.cancel = cancel
 	cfg := cluster.NewDefaultConfig()
 	cfg.InventoryExternalPortQuantity = 100
+	cfg.BlockedHostnames = []string{blockedHost}
 	var err error
 	x.svc, err = cluster.NewService(ctx, sess, x.bus, &cluClient{s: x.s, inc: 1}, cfg)
 	if err != nil {
@@ -250,6 +263,7 @@ func runC14(r *core.Run) *core.Violation {
 		if r.Bool(60, "lease.hosts") {
 			l.hosts = []string{fmt.Sprintf("app%d.example.com", i)}
 			l.swapHosts = r.Bool(40, "lease.swap-hosts")
+			l.blockedSecond = r.Bool(15, "lease.blocked-second-host")
 		}
 		x.leases = append(x.leases, l)
 		// the bid engine reserved resources for the order before the lease was won
@@ -362,6 +376,10 @@ func (x *c14) step() *core.Violation {
 		if l.closedAt == 0 {
 			st = append(st, stim{8, func() {
 				l.lastSent++
+				if l.blockedSecond {
+					l.deployFail = true
+					r.Count("probe:hostname-reservation-refused")
+				}
 				m, _ := x.manifestFor(l, l.lastSent)
 				inflight := x.inflight(l)
 				if inflight != "" {
